@@ -82,6 +82,9 @@ package httpd
 //@ pure muxOK(mux *Mux) bool = mux.root != nil && mux.root.inTrie && mux.root.np == 0 && trieOK() && mux.routeNotFound != nil && mux.relayHandler != nil && mux.maxParams >= 0 && mux.maxParams <= 72057594037927936
 
 //@ ghost var relayCalls int
+// the request id is the value the atomic increment returned (one step: two requests never read the same counter value)
+//@ ghost var lastTicket int
+//@ shared Mux.storeID atomic
 //@ ghost var poolPuts int
 
 // A handler is arbitrary user code. Assumed about it (/verif/contracts/std/protect.spec): it does not write the
@@ -94,7 +97,7 @@ package httpd
 
 //@ func (*Mux).ServeHTTP
 //@   requires mux != nil && r != nil && r.URL != nil && muxOK(mux)
-//@   modifies region(userMem), fields(Store.W), fields(Store.R), fields(Store.P), fields(Store.I), fields(Store.id), fields(ResponseWriter.Origin), fields(ResponseWriter.Status), fields(Params.K), fields(Params.V), mux.storeID, relayCalls, poolPuts
+//@   modifies region(userMem), fields(Store.W), fields(Store.R), fields(Store.P), fields(Store.I), fields(Store.id), fields(ResponseWriter.Origin), fields(ResponseWriter.Status), fields(Params.K), fields(Params.V), mux.storeID, relayCalls, poolPuts, lastTicket
 //@   mayPanic
 //@   ensures dispatchOnce: relayCalls == old(relayCalls) + 1
 //@   onpanic noPut: poolPuts == old(poolPuts)
@@ -102,6 +105,8 @@ package httpd
 //@   ghost before call HandlerFunc assert ri.status: store.W.Status == 0 && store.R == r
 //@   ghost before call HandlerFunc assert ri.params: len(store.P.K) <= len(store.P.V) && (store.I != mux.routeNotFound ==> len(store.P.K) == len(store.P.V))
 //@   ghost before call HandlerFunc assert ri.nomatch: store.I == mux.routeNotFound && !mux.routeNotFound.registered ==> len(store.P.K) == 0
+//@   ghost after call AddUint64 set lastTicket = ret
+//@   ghost before call AppendUint assert ticket: arg1 == lastTicket
 //@   ghost after call HandlerFunc set relayCalls = relayCalls + 1
 //@   ghost after call Put set poolPuts = poolPuts + 1
 
